@@ -2,6 +2,7 @@
 
   suite_literals     `fe.literals`: literals of every kind and of unusual size at every place a literal is converted
   suite_annargs      `fe.annargs`: argument shapes of every built-in annotation type and four custom ones
+  suite_exvalues     `fe.exvalues`: type expression x example value (fields, list items, map keys and values, nesting)
 
 Direct oracles on the REAL compiler (testing; independent of the Lean models):
   suite_valid        generated legal models (all presets) x 2 layouts must compile
@@ -26,9 +27,25 @@ WORKERS = min(16, os.cpu_count() or 4)
 
 # ------------------------------------------------------------------------------------------------ running the compiler
 
+def classify_safe(specs, **kw):
+    """fe_fuzz.classify; a time-limit exception that fires outside the region where classify catches it (in one of its
+    handlers, in its `finally`, between arming the timers and entering the `try`) is turned into the same verdict
+    instead of escaping -- out of a pool worker it would take the whole pool down (BrokenProcessPool)"""
+    import signal
+    try:
+        return fe_fuzz.classify(specs, **kw)
+    except fe_fuzz._Timeout as e:
+        try:
+            signal.setitimer(signal.ITIMER_PROF, 0)
+            signal.alarm(0)
+        except fe_fuzz._Timeout:
+            pass
+        return {'k': 'crash', 'exc': 'Timeout', 'where': e.where, 'clock': e.clock, 'limit_s': kw.get('limit_s', 20), 'stray': True}
+
+
 def _compile_many(batch):
     core.ensure_repo_on_path()
-    return [fe_fuzz.classify(s) for s in batch]
+    return [classify_safe(s) for s in batch]
 
 
 def compile_all(cases, chunk=25):
@@ -43,7 +60,10 @@ def compile_all(cases, chunk=25):
     # a timeout counts only when it repeats with the case run alone under a longer limit
     for i, v in enumerate(out):
         if v.get('exc') == 'Timeout':
-            out[i] = fe_fuzz.confirm_timeout(cases[i], v)
+            again = classify_safe(cases[i], limit_s=v.get('limit_s', 20) * 3)      # as fe_fuzz.confirm_timeout
+            if again.get('exc') == 'Timeout':
+                again['confirmed'] = True
+            out[i] = again
     return out
 
 
@@ -60,7 +80,7 @@ def driver_retry(ck, requests, tries=12, wait_s=20):
 
 
 def compile_one(specs):
-    v = fe_fuzz.classify([tuple(s) for s in specs])
+    v = classify_safe([tuple(s) for s in specs])
     if v['k'] == 'spec':
         v['msg'] = spec_message(specs)
     return v
@@ -848,9 +868,398 @@ def suite_annargs(ck, report='C01', cap=None):
     ck.sample({'suite': 'fe.annargs', 'expr': annargs_spec(*grid[len(grid) // 2])[0][1].split('annotation An = ')[1].split('\n')[0]})
 
 
+# ================================================================================================ fe.exvalues
+#
+# "Examples ... that fit their types": a systematic grid of (type expression, example value) like `fe.params` for type
+# arguments.  A type is a small tree over the built-in types
+#     ('p', name, positional, keywords)   primitive           ('n', T)  T?           ('a', T)  alias X = T
+#     ('l', T, min_items, max_items)      List                ('m', K, V)  Map(K, V)
+# and `ex_fits` states, from the "Basic Types" table and the "Examples" section of docs/lang_ref.rst (NOT from the code),
+# whether a value fits: every part of the value -- the field value, every list item, every map KEY and every map value,
+# at any depth and behind aliases / nullables -- must be of the right kind and inside every bound of the type at its
+# position.  Verdict True / False / None (not judged).
+
+def P(name, *pos, **kw):
+    return ('p', name, pos, kw)
+
+
+def N(t):
+    return ('n', t)
+
+
+def A(t):
+    return ('a', t)
+
+
+def L(t, lo=None, hi=None):
+    return ('l', t, lo, hi)
+
+
+def M(k, v):
+    return ('m', k, v)
+
+
+_XINT = {'Int32': (-2 ** 31, 2 ** 31 - 1), 'UInt32': (0, 2 ** 32 - 1), 'Int64': (-2 ** 63, 2 ** 63 - 1), 'UInt64': (0, 2 ** 64 - 1)}
+_XF32 = 3.40282e38
+
+
+def _prim_fits(name, pos, kw, v):
+    """(verdict, aspect) for a non-null value against a primitive type"""
+    if name in _XINT:
+        if isinstance(v, bool):
+            return None, 'bool-as-number'
+        if not isinstance(v, int):
+            return False, 'kind'
+        lo, hi = _XINT[name]
+        if not lo <= v <= hi:
+            return False, 'range'
+        if kw.get('min_value') is not None and v < kw['min_value']:
+            return False, 'min_value'
+        if kw.get('max_value') is not None and v > kw['max_value']:
+            return False, 'max_value'
+        return True, None
+    if name in ('Float32', 'Float64'):
+        if isinstance(v, bool):
+            return None, 'bool-as-number'
+        if not isinstance(v, (int, float)):
+            return False, 'kind'
+        try:
+            x = float(v)
+        except OverflowError:
+            return None, 'huge'
+        if math.isinf(x) or math.isnan(x):
+            return None, 'inf'
+        if name == 'Float32' and abs(x) > _XF32:
+            return (False, 'range') if abs(x) > 2 * _XF32 else (None, 'edge')
+        if kw.get('min_value') is not None and x < kw['min_value']:
+            return False, 'min_value'
+        if kw.get('max_value') is not None and x > kw['max_value']:
+            return False, 'max_value'
+        return True, None
+    if name == 'Boolean':
+        return (True, None) if isinstance(v, bool) else (False, 'kind')
+    if name == 'Bytes':
+        return (True, None) if isinstance(v, str) else (False, 'kind')
+    if name == 'String':
+        if not isinstance(v, str):
+            return False, 'kind'
+        if kw.get('max_length') is not None and len(v) > kw['max_length']:
+            return False, 'max_length'
+        if kw.get('min_length') is not None and len(v) < kw['min_length']:
+            return False, 'min_length'
+        pat = kw.get('pattern')
+        if pat:
+            if re.match(pat, v) is None:
+                return False, 'pattern'          # no match even of a prefix: fails under every reading of "validation"
+            if re.fullmatch(pat, v) is None:
+                return None, 'pattern-prefix'    # whether the pattern must cover the whole string is not judged
+        return True, None
+    if name == 'Timestamp':
+        if not isinstance(v, str):
+            return None, 'kind'                  # strptime of a non-string: whatever happens is C03's business
+        import datetime
+        try:
+            datetime.datetime.strptime(v, pos[0])
+            return True, None
+        except ValueError:
+            return False, 'format'
+    raise ValueError(name)
+
+
+def ex_fits(t, v, where='field'):
+    """-> (verdict, aspect, where, type name) -- the first misfit in reading order decides; else None if any part
+    is not judged; else True"""
+    k = t[0]
+    if k == 'a':
+        return ex_fits(t[1], v, where)
+    if k == 'n':
+        return (True, None, where, 'Nullable') if v is None else ex_fits(t[1], v, where)
+    name = {'l': 'List', 'm': 'Map'}.get(k) or t[1]
+    if v is None:
+        return False, 'null', where, name
+    if k == 'p':
+        if isinstance(v, (list, dict)):
+            return False, 'kind', where, name
+        verdict, aspect = _prim_fits(t[1], t[2], t[3], v)
+        return verdict, aspect, where, name
+    if k == 'l':
+        if not isinstance(v, list):
+            return False, 'kind', where, name
+        if t[3] is not None and len(v) > t[3]:
+            return False, 'max_items', where, name
+        if t[2] is not None and len(v) < t[2]:
+            return False, 'min_items', where, name
+        parts = [ex_fits(t[1], x, 'item') for x in v]
+    else:
+        if not isinstance(v, dict):
+            return False, 'kind', where, name
+        parts = []
+        for key, val in v.items():
+            parts.append(ex_fits(t[1], key, 'key'))
+            parts.append(ex_fits(t[2], val, 'value'))
+    for p in parts:
+        if p[0] is False:
+            return p
+    for p in parts:
+        if p[0] is None:
+            return p
+    return True, None, where, name
+
+
+def xt_text(t, aliases):
+    """the type expression as written; every ('a', T) adds `alias ZqAn = T` to `aliases`"""
+    from harness import specgen
+    k = t[0]
+    if k == 'p':
+        args = [specgen.lit(a) for a in t[2]] + ['%s=%s' % (n, specgen.lit(x)) for n, x in t[3].items()]
+        return t[1] + ('(%s)' % ', '.join(args) if args else '')
+    if k == 'n':
+        return xt_text(t[1], aliases) + '?'
+    if k == 'a':
+        inner = xt_text(t[1], aliases)
+        name = 'ZqA%d' % len(aliases)
+        aliases.append('alias %s = %s' % (name, inner))
+        return name
+    if k == 'l':
+        args = [xt_text(t[1], aliases)] + ['%s=%d' % (n, x) for n, x in (('min_items', t[2]), ('max_items', t[3])) if x is not None]
+        return 'List(%s)' % ', '.join(args)
+    return 'Map(%s, %s)' % (xt_text(t[1], aliases), xt_text(t[2], aliases))
+
+
+def _ml_lines(prefix, d, suffix, ind):
+    """a map literal over several lines, as in lang_ref "Map examples can also be multiline" """
+    from harness import specgen
+    out = [' ' * ind + prefix + '{']
+    items = list(d.items())
+    for i, (k, v) in enumerate(items):
+        comma = '' if i == len(items) - 1 else ','
+        if isinstance(v, dict) and v:
+            out += _ml_lines(specgen.lit(k) + ': ', v, comma, ind + 4)
+        else:
+            out.append(' ' * (ind + 4) + specgen.lit(k) + ': ' + specgen.lit(v) + comma)
+    out.append(' ' * ind + '}' + suffix)
+    return out
+
+
+def exvalue_spec(t, v, host='struct', multiline=False):
+    """a spec that is legal except (possibly) for the example value `v` given to a member of type `t`.
+    host: struct | union (the member is a tag) | child (the field is inherited, the example sits in the child)"""
+    from harness import specgen
+    aliases = []
+    text = xt_text(t, aliases)
+    lines = ['namespace ns', '']
+    for a in aliases:
+        lines += [a, '']
+    if multiline and isinstance(v, dict) and v:
+        ex = _ml_lines('f = ', v, '', 8)
+    else:
+        ex = ['        f = ' + specgen.lit(v)]
+    if host == 'union':
+        lines += ['union S', '    g', '    f %s' % text, '    example default'] + ex
+    elif host == 'child':
+        lines += ['struct B', '    f %s' % text, '', 'struct S extends B', '    g Int32', '    example default', '        g = 1'] + ex
+    else:
+        lines += ['struct S', '    f %s' % text, '    example default'] + ex
+    return [('ns.stone', '\n'.join(lines) + '\n')]
+
+
+XV_INTS = [0, 1, -1, 2, 3, 5, 6, -3, -4, 10, 11, 2 ** 31 - 1, 2 ** 31, -2 ** 31, -2 ** 31 - 1, 2 ** 32 - 1, 2 ** 32, 2 ** 63 - 1,
+           2 ** 63, -2 ** 63, -2 ** 63 - 1, 2 ** 64 - 1, 2 ** 64]
+XV_FLOATS = [0.0, 0.5, 1.5, -1.5, -1.6, 2.5, 2.6, 3.5, 1e39, -1e39]
+XV_STRS = ['', 'a', 'ab', 'abc', 'abcd', 'abcde', 'AB', 'Ab', 'a1', 'ab1', '12', '2020-01-31', '2020-13-01', 'x y']
+XV_OTHER = [True, False, None, [], [1], ['a'], {}, {'a': 1}]
+XV_POOL = XV_INTS + XV_FLOATS + XV_STRS + XV_OTHER
+
+XT_STRINGS = [P('String'), P('String', min_length=2), P('String', max_length=3), P('String', pattern='[a-z]+$'),
+              P('String', pattern='[a-z]+'), P('String', min_length=2, max_length=4, pattern='[a-z0-9]*$')]
+XT_LEAVES = [P('Int32'), P('Int32', min_value=-3, max_value=5), P('UInt32'), P('UInt32', max_value=10), P('Int64'),
+             P('Int64', min_value=2), P('UInt64'), P('UInt64', min_value=1, max_value=10),
+             P('Float32'), P('Float32', max_value=2.5), P('Float64'), P('Float64', min_value=-1.5, max_value=2.5),
+             P('Boolean'), P('Bytes'), P('Timestamp', '%Y-%m-%d')] + XT_STRINGS
+_S = P('String')
+
+# contexts of a leaf: name -> (type around the leaf T, value around the leaf value v given a fitting value g, host)
+XV_CONTEXTS = [
+    ('nullable', lambda T: N(T), lambda v, g: v, 'struct'),
+    ('alias', lambda T: A(T), lambda v, g: v, 'struct'),
+    ('alias-of-nullable', lambda T: A(N(T)), lambda v, g: v, 'struct'),
+    ('alias-chain', lambda T: A(A(T)), lambda v, g: v, 'struct'),
+    ('nullable-alias', lambda T: N(A(T)), lambda v, g: v, 'struct'),
+    ('inherited', lambda T: T, lambda v, g: v, 'child'),
+    ('tag', lambda T: T, lambda v, g: v, 'union'),
+    ('tag-alias', lambda T: A(T), lambda v, g: v, 'union'),
+    ('list', lambda T: L(T), lambda v, g: [v], 'struct'),
+    ('list-later-item', lambda T: L(T), lambda v, g: [g, g, v], 'struct'),
+    ('list-bounded', lambda T: L(T, 1, 2), lambda v, g: [g, v], 'struct'),
+    ('list-of-nullable', lambda T: L(N(T)), lambda v, g: [None, v], 'struct'),
+    ('nullable-list', lambda T: N(L(T)), lambda v, g: [v], 'struct'),
+    ('list-of-list', lambda T: L(L(T)), lambda v, g: [[g], [v]], 'struct'),
+    ('alias-of-list', lambda T: A(L(T)), lambda v, g: [v], 'struct'),
+    ('list-of-alias', lambda T: L(A(T)), lambda v, g: [v], 'struct'),
+    ('tag-list', lambda T: L(T), lambda v, g: [g, v], 'union'),
+    ('inherited-list', lambda T: L(T), lambda v, g: [v], 'child'),
+    ('map-value', lambda T: M(_S, T), lambda v, g: {'k': v}, 'struct'),
+    ('map-later-value', lambda T: M(_S, T), lambda v, g: {'k': g, 'j': v}, 'struct'),
+    ('map-of-nullable', lambda T: M(_S, N(T)), lambda v, g: {'k': None, 'j': v}, 'struct'),
+    ('map-of-list', lambda T: M(_S, L(T)), lambda v, g: {'k': [g, v]}, 'struct'),
+    ('map-of-map', lambda T: M(_S, M(_S, T)), lambda v, g: {'k': {'j': v}}, 'struct'),
+    ('nullable-map', lambda T: N(M(_S, T)), lambda v, g: {'k': v}, 'struct'),
+    ('alias-of-map', lambda T: A(M(_S, T)), lambda v, g: {'k': v}, 'struct'),
+    ('map-of-alias', lambda T: M(_S, A(T)), lambda v, g: {'k': v}, 'struct'),
+    ('tag-map', lambda T: M(_S, T), lambda v, g: {'k': v}, 'union'),
+    ('inherited-map', lambda T: M(_S, T), lambda v, g: {'k': v}, 'child'),
+]
+# contexts of a map KEY: (type around the key type K, value around the key k given a fitting key g, host)
+XV_KEY_CONTEXTS = [
+    ('key', lambda K: M(K, P('Int32')), lambda k, g: {k: 1}, 'struct'),
+    ('later-key', lambda K: M(K, P('Int32')), lambda k, g: {g: 1, k: 2}, 'struct'),
+    ('key-of-string-map', lambda K: M(K, _S), lambda k, g: {k: 'v'}, 'struct'),
+    ('key-of-list-map', lambda K: M(K, L(P('Int32'))), lambda k, g: {k: [1]}, 'struct'),
+    ('key-of-map-map', lambda K: M(K, M(_S, P('Int32'))), lambda k, g: {k: {'j': 1}}, 'struct'),
+    ('inner-key', lambda K: M(_S, M(K, P('Int32'))), lambda k, g: {'k': {g: 1}, 'j': {k: 1}}, 'struct'),
+    ('nullable-map-key', lambda K: N(M(K, P('Int32'))), lambda k, g: {k: 1}, 'struct'),
+    ('alias-of-map-key', lambda K: A(M(K, P('Int32'))), lambda k, g: {k: 1}, 'struct'),
+    ('alias-of-nullable-map-key', lambda K: A(N(M(K, P('Int32')))), lambda k, g: {k: 1}, 'struct'),
+    ('tag-map-key', lambda K: M(K, P('Int32')), lambda k, g: {k: 1}, 'union'),
+    ('inherited-map-key', lambda K: M(K, P('Int32')), lambda k, g: {g: 1, k: 2}, 'child'),
+]
+XV_KEYS = XV_STRS + [1, 0, 1.5, True, None]
+
+
+def _writable(v, in_list=False):
+    """can the value be written as an example?  (no map literal inside a list literal: grammar ex_list_item)"""
+    if isinstance(v, dict):
+        return not in_list and all(_writable(x) for x in v.values())
+    if isinstance(v, list):
+        return all(_writable(x, True) for x in v)
+    return True
+
+
+def _representatives(T, pool):
+    """values of the pool for a leaf type: two that fit, one per way of not fitting"""
+    good, bad = [], {}
+    for v in pool:
+        verdict, aspect, _w, _n = ex_fits(T, v)
+        if verdict is True and len(good) < 2 and v is not None:
+            good.append(v)
+        elif verdict is False:
+            bad.setdefault((aspect, type(v).__name__), v)
+    return good, list(bad.values())
+
+
+_XV_NATURAL = {'Int32': (int,), 'UInt32': (int,), 'Int64': (int,), 'UInt64': (int,), 'Float32': (int, float), 'Float64': (int, float),
+               'Boolean': (bool,), 'Bytes': (str,), 'String': (str,), 'Timestamp': (str,)}
+XT_CORE = [P('Int32', min_value=-3, max_value=5), P('Float64', min_value=-1.5, max_value=2.5), P('Boolean'), P('Timestamp', '%Y-%m-%d'),
+           P('String', min_length=2, max_length=4, pattern='[a-z0-9]*$')]
+XV_KEYS_QUICK = ['', 'a', 'ab', 'abcd', 'abcde', 'AB', 'ab1', '12', 1, 1.5, True, None]
+
+
+def _plain_field_value(T, v, nth_of_kind):
+    """quick tier: every value of the leaf's own kind (for the float types only the small integers and one huge one),
+    every boolean / null / list / map, two of every other kind"""
+    kind, nat = type(v), _XV_NATURAL[T[1]]
+    if kind in (bool, list, dict, type(None)):
+        return True
+    if kind not in nat:
+        return nth_of_kind <= 2
+    if kind is int and float in nat:
+        return abs(v) <= 11 or v == 2 ** 64
+    return True
+
+
+def exvalues_grid(rng, full):
+    """[(context name, type, value, host, multiline)].  The systematic part (every leaf type with every value of its
+    own kind and two of every other kind as a plain field; five leaf types in every context; every key type in every
+    key context) runs in every tier; `full` = every leaf type with every pool value in every context."""
+    out = []
+    for T in XT_LEAVES:
+        core_leaf = full or T in XT_CORE
+        per_kind = {}
+        for v in XV_POOL:
+            per_kind[type(v)] = per_kind.get(type(v), 0) + 1
+            if full or _plain_field_value(T, v, per_kind[type(v)]):
+                out.append(('field', T, v, 'struct', False))
+        good, bad = _representatives(T, XV_POOL)
+        g = good[0]
+        contexts = XV_CONTEXTS if core_leaf else rng.sample(XV_CONTEXTS, 4)
+        for name, wrap_t, wrap_v, host in contexts:
+            for v in (good if full else good[:1]) + bad + [None]:
+                out.append((name, wrap_t(T), wrap_v(v, g), host, False))
+        if not core_leaf:
+            continue
+        # the container itself: a value of the wrong kind where a list / a map is expected, and the length bounds
+        for v in (g, [g], {'k': g}, None):
+            out.append(('list-kind', L(T), v, 'struct', False))
+            out.append(('map-kind', M(_S, T), v, 'struct', False))
+            out.append(('list-of-list-kind', L(L(T)), [v], 'struct', False))
+            out.append(('map-of-list-kind', M(_S, L(T)), {'k': v}, 'struct', False))
+            out.append(('map-of-map-kind', M(_S, M(_S, T)), {'k': v}, 'struct', False))
+        for n in range(5):
+            out.append(('list-length', L(T, 1, 3), [g] * n, 'struct', False))
+            out.append(('list-length-in-map', M(_S, L(T, 2, 3)), {'k': [g] * n}, 'struct', False))
+            out.append(('list-length-in-list', L(L(T, None, 2)), [[g], [g] * n], 'struct', False))
+            out.append(('list-length-alias', A(L(T, 2, None)), [g] * n, 'union', False))
+    for K in XT_STRINGS:
+        good, _bad = _representatives(K, XV_STRS)
+        for k in (XV_KEYS if full else XV_KEYS_QUICK):
+            g = [x for x in good if x != k][0]
+            for name, wrap_t, wrap_v, host in XV_KEY_CONTEXTS:
+                v = wrap_v(k, g)
+                out.append((name, wrap_t(K), v, host, False))
+                if full or name in ('key', 'later-key', 'inner-key'):
+                    out.append((name + '/multiline', wrap_t(K), v, host, True))
+    seen, res = set(), []
+    for c in out:
+        key = (repr(c[1]), repr(c[2]), c[3], c[4])
+        if _writable(c[2]) and key not in seen:
+            seen.add(key)
+            res.append(c)
+    return res
+
+
+def suite_exvalues(ck, report='C01'):
+    """`fe.exvalues`: example values against the types of the members they are given to.  Direct oracle on the real
+    compiler: a value that does not fit (by `ex_fits`) must be refused with InvalidSpec, one that fits must compile."""
+    grid = exvalues_grid(ck.rng, ck.scale(False, True))
+    specs = [exvalue_spec(t, v, host, ml) for _n, t, v, host, ml in grid]
+    verdicts = compile_all(specs, chunk=60)
+    seen = set()
+    for (ctx, t, v, host, ml), sp, rv in zip(grid, specs, verdicts):
+        verdict, aspect, where, tname = ex_fits(t, v)
+        ck.case(('fe.exvalues', sp[0][1]), nontrivial=True)
+        out = rv['k'] if rv['k'] != 'crash' else 'crash:' + rv['exc']
+        ck.hist('fe.exvalues.context', ctx.split('/')[0])
+        ck.hist('fe.exvalues.legal', '%s/%s' % ({True: 'fits', False: 'misfit', None: 'not-judged'}[verdict], out))
+        if verdict is False:
+            ck.hist('fe.exvalues.misfit', '%s:%s:%s' % (where, tname, aspect))
+        case = {'specs': [list(f) for f in sp], 'origin': 'fe.exvalues', 'verdict': rv, 'context': ctx, 'suite': 'fe.exvalues',
+                'value': repr(v)}
+        if rv['k'] == 'crash':
+            if report == 'C03':
+                if (rv['exc'], rv['where']) not in seen:
+                    seen.add((rv['exc'], rv['where']))
+                    ck.failing_input('C03: %s escapes the frontend (%s): example value %r' % (rv['exc'], rv['where'], v),
+                                     {'kind': 'escape', 'exc': rv['exc'], 'where': rv['where']}, case)
+            else:
+                ck.stat('fe.exvalues.escapes_left_to_C03')
+                ck.hist('fe.exvalues.escape', '%s@%s' % (rv['exc'], rv['where']))
+        elif report == 'C01':
+            if rv['k'] == 'ok' and verdict is False:
+                ck.failing_input('C01: an example value that does not fit its type is accepted (%s of %s: %s; context %s)'
+                                 % (where, tname, aspect, ctx),
+                                 {'kind': 'accepted', 'rule': 'C3', 'where': where, 'type': tname, 'aspect': aspect},
+                                 dict(case, expect='refused', rule='C3'))
+            elif rv['k'] == 'spec' and verdict is True:
+                msg = spec_message(sp)
+                ck.failing_input('C01: an example value that fits its type is refused (context %s): %s' % (ctx, msg),
+                                 {'kind': 'refused', 'rule': 'C3', 'context': ctx.split('/')[0], 'message': _msg_shape(msg)},
+                                 dict(case, expect='accepted', rule='C3', message=msg))
+    ck.sample({'suite': 'fe.exvalues', 'spec': specs[len(specs) // 2][0][1]})
+
+
 # ================================================================================================ by-construction oracle
 
-PRESETS = ['small', 'default', 'fe', 'routes', 'rt', 'py_safe']
+PRESETS =['small', 'default', 'fe', 'routes', 'rt', 'py_safe']
 _MSG_RULE = [
     (r'already defined', 'A8/A9'), (r'conflicts with name', 'A10'), (r'is undefined|Undefined type', 'A11'),
     (r'not imported', 'A6'), (r'not a namespace', 'A7'), (r'Circular import', 'A5'), (r'Cannot import current', 'A3'),
